@@ -113,8 +113,10 @@ def copy_data_yield(data_length, blocksize, infp, outfp):
         # lie about the size of their files, causing reads to fail (since
         # we hit EOF before the supposed end of the file).  If we got less data
         # than we asked for, abort the loop silently.
+        # (A read that returns less than was asked for is not the end of the
+        # file yet - raw streams may do that at any time; an empty read is.)
         data_len = len(data)
-        if data_len != readsize:
+        if data_len == 0:
             data_len = left
         outfp.write(data)
         left -= data_len
